@@ -21,6 +21,8 @@ import (
 	"istio.io/istio/pilot/pkg/networking"
 	"istio.io/istio/pilot/pkg/security/authn"
 	"istio.io/istio/pkg/log"
+	"istio.io/istio/pkg/maps"
+	"istio.io/istio/pkg/slices"
 )
 
 var authnLog = log.RegisterScope("authn", "authn debugging")
@@ -81,8 +83,9 @@ func (b *Builder) ForPassthrough() []authn.MTLSSettings {
 		b.applier.InboundMTLSSettings(0, b.proxy, b.trustDomains, authn.NoOverride),
 	}
 
-	// Then generate the per-port passthrough filter chains.
-	for port := range b.applier.PortLevelSetting() {
+	// Then generate the per-port passthrough filter chains, in port order: the port-level settings are a map, and
+	// following its iteration order would reorder the filter chains of the inbound listener from one push to the next.
+	for _, port := range slices.Sort(maps.Keys(b.applier.PortLevelSetting())) {
 		// Skip the per-port passthrough filterchain if the port is already handled by InboundMTLSConfiguration().
 		if !needPerPortPassthroughFilterChain(port, b.proxy) {
 			continue
